@@ -1,4 +1,4 @@
-\* exhaustive case export + property check (quick): every admissible history with exactly 2 operations ([op,op] or [op][op]), 2 names, 2 label shapes, 2 groups, 2 hooks (first batch from h1: hooks are interchangeable), values {0.5, 1.0}, 3 invalid ops; no VIEW, every history is one state
+\* exhaustive case export + property check (quick): every admissible history with exactly 2 operations ([op,op] or [op][op]), 2 names, 2 label shapes, 2 groups, 2 hooks (first batch from h1: hooks are interchangeable), values {0.5, 1.0}, 3 invalid ops + the last operation of the file cut off at 3 positions; no VIEW, every history is one state
 SPECIFICATION Spec
 CONSTANTS
   Names = {"m1", "m2"}
@@ -6,7 +6,7 @@ CONSTANTS
   Groups = {"g1", "g2"}
   Hooks = {"h1", "h2"}
   Values = {1, 2}
-  InvalidSel <- InvFew
+  InvalidSel <- InvFewCut
   MaxBatches = 2
   MaxOps = 2
   SymHooks = TRUE
